@@ -51,7 +51,7 @@ func DecodeSttsSR(hdr BoxHeader, startPos uint64, sr bits.SliceReader) (Box, err
 		b.SampleCount[i] = sr.ReadUint32()
 		b.SampleTimeDelta[i] = sr.ReadUint32()
 	}
-	return &b, nil
+	return &b, sr.AccError()
 }
 
 // Type - return box type
